@@ -236,6 +236,15 @@ func C04(c *vf.Ctx) {
 			}
 			ts.mark(w, "before")
 			if !w.Step(sys.Stim{K: "cancel", R: r}) {
+				// the latest RPC was cancelled already (by a directed scenario): what remains to be judged is the connection
+				// afterwards
+				if ts.Notes["scenario"] != "" {
+					w.Flow(60, nil)
+					ts.mark(w, "probeonly")
+					if endAll(w, hDrain) {
+						res = probe(w, ts)
+					}
+				}
 				return
 			}
 			ts.mark(w, "cancel")
@@ -274,6 +283,9 @@ func C04(c *vf.Ctx) {
 			}
 			at, ok := ts.Marks["cancel"]
 			if !ok {
+				if _, po := ts.Marks["probeonly"]; po {
+					return probeFinding("C04", v, ts, res)
+				}
 				return nil
 			}
 			var r int
